@@ -602,6 +602,9 @@ func (w *vc13World) checkRound(
 	if ui := info.urls[vc13IdxPath]; !ui.ok && hits[vc13IdxPath] > 0 {
 		cls("fault:" + string(ui.kind))
 		cls("cell:idx:" + string(ui.kind))
+		if rd.Idx.Over > 0 {
+			cls(fmt.Sprintf("cell:idx:%s:+%d", ui.kind, rd.Idx.Over))
+		}
 		if ri > 0 {
 			res.faultAfterSuccess = true
 			cls("fault-after-success")
@@ -688,6 +691,9 @@ func (w *vc13World) checkRound(
 			cls("fault:" + string(ui.kind))
 			cls("fault-slot:" + s.kind)
 			cls("cell:" + s.name + ":" + string(ui.kind))
+			if over := rd.S[s.name].Over; over > 0 {
+				cls(fmt.Sprintf("cell:%s:%s:+%d", s.name, ui.kind, over))
+			}
 			if b != 0 {
 				res.faultAfterSuccess = true
 				cls("fault-after-success")
@@ -1059,8 +1065,13 @@ func vc13GenFault(t *rapid.T, label string, hangs *int) (sc vc13Script) {
 		Kind:   k,
 		Fill:   rapid.IntRange(0, 12).Draw(t, label+"-fill"),
 		CutPct: rapid.SampledFrom([]int{0, 10, 50, 90, 100}).Draw(t, label+"-cut"),
+		Over:   rapid.SampledFrom(append([]int{0}, vc13Overs...)).Draw(t, label+"-over"),
 	}
 }
+
+// vc13Overs are the enumerated excesses over the size limit: one octet, a few,
+// and twice the limit.
+var vc13Overs = []int{1, 7, vc13MaxSize}
 
 // vc13GenEntries draws the entries of an index.  If partial is set, invalid
 // and duplicate entries are mixed in.
@@ -1222,7 +1233,7 @@ var vc13RequiredClasses = []string{
 	"fault-after-success",
 	"fault-without-previous",
 	"fault:conn_close", "fault:hang_hdr", "fault:hang_body", "fault:s404", "fault:s500", "fault:empty",
-	"fault:oversize", "fault:short_cl", "fault:chunk_trunc",
+	"fault:oversize", "fault:oversize_chunked", "fault:oversize_close", "fault:short_cl", "fault:chunk_trunc",
 	"fault-slot:rule", "fault-slot:svc", "fault-slot:ss", "fault-slot:hash",
 	"idx:fault", "idx:partial", "idx:garbage",
 	"partial-index-valid-entries-applied",
@@ -1295,6 +1306,24 @@ func vc13GridSeqs() (seqs []*vc13Seq) {
 			mid.S["a"] = vc13Script{Kind: k, Fill: 3, CutPct: 50}
 			mid.Tight = true
 			seqs = append(seqs, three(mid))
+		}
+	}
+
+	// Every form of an oversized body (announced length, chunked, delimited
+	// by the end of the connection) of every enumerated size at every target.
+	for _, k := range []vc13Kind{vc13Oversize, vc13OversizeChunked, vc13OversizeClose} {
+		for _, over := range vc13Overs {
+			for _, tg := range vc13Targets {
+				mid := okRound()
+				sc := vc13Script{Kind: k, Over: over}
+				if tg == "idx" {
+					mid.Idx = sc
+				} else {
+					mid.S[tg] = sc
+				}
+
+				seqs = append(seqs, three(mid))
+			}
 		}
 	}
 
@@ -1373,6 +1402,11 @@ func TestVerifC13FaultGrid(t *testing.T) {
 	for _, k := range vc13FaultKinds {
 		for _, tg := range vc13Targets {
 			req = append(req, "cell:"+tg+":"+string(k))
+			if vc13IsOversize(k) {
+				for _, over := range vc13Overs {
+					req = append(req, fmt.Sprintf("cell:%s:%s:+%d", tg, k, over))
+				}
+			}
 		}
 	}
 
